@@ -1,4 +1,4 @@
-(* C09 executable model, part 2: the loop of smooth::minimize (/repo/include/smooth/optim.hpp:63-172),
+(* C09 executable model, part 2: the loop of smooth::minimize (/repo/include/smooth/optim.hpp:63-173),
    one [step] per loop iteration, transcribed line by line.  Everything numerical that the loop body computes
    (residual norm, trust-region step, actual/predicted reduction, rho, scaled step norm) enters through an
    ORACLE record, one per iteration; the control flow (strategy call, accept/reject, callback, convergence
@@ -20,8 +20,8 @@ Record oracle (X : Type) : Type := {
   o_actu : xq;        (* actu_red = 1 - (|f(xp)| / r_n)^2           optim.hpp:101 *)
   o_pred : xq;        (* pred_red = 1 - (|r + J dx| / r_n)^2        optim.hpp:102 *)
   o_rho : xq;         (* rho = actu_red / pred_red                  optim.hpp:103 *)
-  o_dnorm : xq;       (* (d .* dx).stableNorm()                     optim.hpp:148 *)
-  o_n : Z;            (* dx.size()                                  optim.hpp:148 *)
+  o_dnorm : xq;       (* (d .* dx).stableNorm()                     optim.hpp:149 *)
+  o_n : Z;            (* dx.size()                                  optim.hpp:149 *)
   o_xp : X;           (* xp = x (+) dx                              optim.hpp:97 *)
   o_cost_new : Q      (* |f(xp)|^2, the cost of xp (only reported, never branched on) *)
 }.
@@ -36,8 +36,11 @@ Section Loop.
   Context {S X : Type}.
   Variable strat : strategy S.
   Variable opts : options.
-  (* [fixed = false]: the code as it is.  [fixed = true]: the code after notes/C09-zero-residual.patch (a zero residual
-     norm counts as Ftol convergence), see known finding C09-zero-residual-nan. *)
+  (* [fixed = true]: the code as it is since /repo commit 16638da (notes/C09-zero-residual.patch applied: a zero residual
+     norm counts as Ftol convergence, the disjunct [r_n == 0 ||] of optim.hpp:147).  [fixed = false]: the code BEFORE that
+     commit (finding C09-zero-residual-nan, now fixed); kept only for the historical lemma
+     zero_residual_spin_refuted and for replaying a tree in which the fix has been reverted.  The model of the code
+     that exists is [fixed := code_now], defined below the section. *)
   Variable fixed : bool.
 
   Record state : Type := {
@@ -50,27 +53,27 @@ Section Loop.
     evs : list event            (* per-iteration events, most recent first *)
   }.
 
-  (* optim.hpp:146-150 *)
+  (* optim.hpp:147-151 *)
   Definition conv_test (oc : oracle X) : option status :=
-    if (fixed && o_rn_zero oc)                                                (* only after the patch *)
+    if (fixed && o_rn_zero oc)                                                (* :147 r_n == 0 || (since 16638da) *)
        || (xltb (xabs (o_actu oc)) (Fin (ftol opts)) && xltb (o_pred oc) (Fin (ftol opts))
-           && xleb (o_rho oc) (Fin 2))                                        (* :146 *)
-    then Some Ftol                                                            (* :147 *)
-    else if xltb (o_dnorm oc) (Fin (ptol opts * inject_Z (o_n oc)))           (* :148 *)
-    then Some Ptol                                                            (* :149 *)
+           && xleb (o_rho oc) (Fin 2))                                        (* :147 *)
+    then Some Ftol                                                            (* :148 *)
+    else if xltb (o_dnorm oc) (Fin (ptol opts * inject_Z (o_n oc)))           (* :149 *)
+    then Some Ptol                                                            (* :150 *)
     else None.
 
   (* optim.hpp:139 *)
   Definition accept (oc : oracle X) (take : bool) : bool :=
     o_rn_zero oc || xleb (o_pred oc) (Fin 0) || take.
 
-  (* body of the for loop, optim.hpp:74-152, including the ++iter of the loop header *)
+  (* body of the for loop, optim.hpp:74-153, including the ++iter of the loop header *)
   Definition step (oc : oracle X) (s : state) : state :=
     let Delta := get_delta strat (sstate s) in                                (* :95 *)
     let '(take, ss') := step_and_update strat (sstate s) (o_rho oc) in        (* :106 *)
     if accept oc take                                                         (* :139 *)
     then
-      let conv := conv_test oc in                                             (* :146-150 *)
+      let conv := conv_test oc in                                             (* :147-151 *)
       {| iter := Datatypes.S (iter s);                                        (* :74 ++iter *)
          cur := o_xp oc;                                                      (* :140 *)
          cost := o_cost_new oc;
@@ -106,13 +109,20 @@ Section Loop.
   Definition run (orc : nat -> oracle X) (x0 : X) (c0 : Q) (s0 : S) : state :=
     loop orc (max_iter opts) (init x0 c0 s0).
 
-  (* optim.hpp:167-171 *)
+  (* optim.hpp:168-172 *)
   Definition result_status (s : state) : status :=
-    match st s with Some v => v | None => MaxIters end.                       (* :168 value_or *)
-  Definition result_iter (s : state) : nat := iter s.                         (* :169 *)
+    match st s with Some v => v | None => MaxIters end.                       (* :169 value_or *)
+  Definition result_iter (s : state) : nat := iter s.                         (* :170 *)
 End Loop.
 
 Arguments state : clear implicits.
+
+(* THE CODE THAT EXISTS: /repo contains commit 16638da, optim.hpp:147 reads
+     if (r_n == 0 || (std::abs(actu_red) < opts.ftol && pred_red < opts.ftol && rho <= 2.))
+   so the model of the current code is the section above with [fixed := code_now].  The property theorems
+   (Props/Properties_C09.v) are stated for this instance, and the replay driver uses this constant unless told
+   otherwise (extract/C09/driver.ml). *)
+Definition code_now : bool := true.
 
 (* ---- replay entry points used by the extracted driver: the oracle sequence is a finite list; reading past its
    end yields [dummy] (the driver compares the iteration count with the list length, so this is detected) *)
